@@ -160,8 +160,43 @@ ROT2_DEG = [0, 30, 90, 135, 180, 200, 270, 330, -45, 400]
 ROT2_DEG_THOROUGH = sorted(set(ROT2_DEG + list(range(-165, 181, 15)) + [725, -400]))
 ROT3_AXES = {"x": (1, 0, 0), "y": (0, 1, 0), "z": (0, 0, 1), "g1": (0.2, -0.5, 0.84), "g2": (-0.7, 0.1, 0.3)}
 ROT3_DEG = [30, 135, 200, -60]
-USCALES = [0.25, 0.8, 1.0, 3.0, -1.5]
-NUSCALES = {2: [(0.5, 2.0), (3.0, 0.3), (-1.2, 0.7), (1.0, 1.0)], 3: [(0.5, 1.5, 3.0), (2.0, 0.4, 0.9), (-1.0, 2.0, 0.5), (1.0, 1.0, 1.0)]}
+USCALES = [0.25, 0.8, 1.0, 3.0, -1.5, 1e-5, 1e5]  # incl. the identity and both ends of the usable range
+NUSCALES = {2: [(0.5, 2.0), (3.0, 0.3), (-1.2, 0.7), (1.0, 1.0), (2.0, 2.0)], 3: [(0.5, 1.5, 3.0), (2.0, 0.4, 0.9), (-1.0, 2.0, 0.5), (1.0, 1.0, 1.0), (2.0, 2.0, 2.0)]}
+IDENTITY_CLASSES = ["Homogeneous", "Affine", "Similarity", "Rotation", "UniformScale", "NonUniformScale", "Translation"]
+
+
+def boundary_letters(tier):
+    """one letter per boundary visible in the anchored code (values exactly 0 / 1 / equal, smallest sizes, the
+    dimensions just outside what the affine classes accept); same in both tiers"""
+    out = []
+    for d in (2, 3):
+        # h_matrix blocks: bottom-right entry exactly 0, linear block singular (=> the INVERSE has a zero corner)
+        for letter in ("perm", "linsingular-int", "linsingular", "cornerzero"):
+            out.append(("H", "Homogeneous", d, letter, 0))
+        for cls in IDENTITY_CLASSES:
+            out.append(("H", cls, d, "identity", 0))  # built by the init_identity constructor
+        # smallest landmark sets each alignment accepts (fewer points: singular fit, outside the quantifier)
+        for cls, opt in (("AlignmentRotation", "n1"), ("AlignmentTranslation", "n1"), ("AlignmentRotation", "n2"), ("AlignmentTranslation", "n2"), ("AlignmentSimilarity", "n2"), ("AlignmentUniformScale", "n2")):
+            out.append(("A", cls, d, "noisy", opt, 0))
+        for cls in ALIGN_CLASSES:
+            out.append(("A", cls, d, "same", "-", 0))  # target == source: every fit is the identity
+    out.append(("H", "Rotation", 2, "angle", 360))
+    out.append(("H", "Rotation", 2, "angle", -180))
+    for ax in ("x", "g1"):
+        out.append(("H", "Rotation", 3, "axis", ax, 180))  # quaternion with zero scalar part (as_vector tie)
+        out.append(("H", "Rotation", 3, "axis", ax, 360))
+    # Homogeneous accepts any dimension; the affine classes only 2 and 3
+    for d in (1, 4):
+        out.append(("H", "Homogeneous", d, "proj", 0))
+        out.append(("H", "Homogeneous", d, "affine", 0))
+    for cls in ("PythonPWA", "CachedPWA"):
+        for sk in ("trimesh", "pointcloud"):
+            out.append(("PWA", cls, "tri3", sk, "jitter", 0))  # a single triangle
+        out.append(("PWA", cls, "tri3", "trimesh", "mirror", 0))
+    for k in TPS_KERNELS:
+        out.append(("TPS", k, 6, "identity", "default", 0))  # target == source: the spline is the identity
+        out.append(("TPS", k, 3, "identity", "default", 0))
+    return out
 COMPOSE_OPERANDS = ["Translation", "UniformScale", "NonUniformScale", "Rotation", "Similarity", "Affine", "Homogeneous"]
 ALIGN_CLASSES = ["AlignmentAffine", "AlignmentSimilarity", "AlignmentRotation", "AlignmentUniformScale", "AlignmentTranslation"]
 PWA_CLASSES = ["PythonPWA", "CachedPWA", "PiecewiseAffine"]
@@ -445,6 +480,8 @@ class C04(Check):
         out += [("TPS",) + l for l in tps_letters(self.tier)]
         out += [("TC", s[0], s[1]) for s in TC_SHAPES]
         out += form_letters(self.tier)
+        have = set(out)
+        out += [b for b in boundary_letters(self.tier) if b not in have]
         return out
 
     # ------------------------------------------------------------------ builders
@@ -484,12 +521,40 @@ class C04(Check):
                 tv = np.array([2.0, 3.0, 1.0][:d])
                 return mt.Translation(P(tv)), homog(np.eye(d), V(tv)), info
             raise HarnessError(root)
+        if letter == "identity":
+            t = getattr(mt, cls).init_identity(d)
+            return t, np.eye(d + 1), info
         trans = 0.5 + 1.5 * r.rand(d)
         if d == 2:
             R = rot2(25 + 300 * r.rand())
-        else:
+        elif d == 3:
             ax = r.randn(3)
             R = rodrigues(ax, 25 + 300 * r.rand())
+        else:  # Homogeneous in 1-D / 4-D
+            R, _ = np.linalg.qr(r.randn(d, d) + 2 * np.eye(d))
+        if cls == "Homogeneous" and letter == "perm":
+            # swaps (2-D) / cycles (3-D) the last coordinates with the homogeneous one: (x, y) -> (x / y, 1 / y).
+            # cond = 1, own corner 0, linear block singular, so the inverse has a zero corner as well
+            H = np.eye(d + 1)[[0, 2, 1]] if d == 2 else np.eye(4)[[0, 2, 3, 1]]
+            return mt.Homogeneous(P(H)), V(H), info
+        if cls == "Homogeneous" and letter == "linsingular-int":
+            H = np.array([[1.0, 2.0, 0.0], [2.0, 4.0, 1.0], [0.0, 1.0, 0.5]]) if d == 2 else np.array([[1.0, 2.0, 0.0, 0.0], [2.0, 4.0, 0.0, 1.0], [0.0, 0.0, 1.0, 0.0], [0.0, 1.0, 0.0, 0.5]])
+            return mt.Homogeneous(P(H)), V(H), info
+        if cls == "Homogeneous" and letter == "linsingular":
+            # generic rank d-1 linear block; translation / projective row along its null directions keep H regular
+            Q, _ = np.linalg.qr(r.randn(d, d) + 2 * np.eye(d))
+            sv = np.array(list(0.8 + 0.6 * r.rand(d - 1)) + [0.0])
+            L = R.dot(np.diag(sv)).dot(Q.T)
+            H = homog(L, 0.3 * r.rand(d) + 1.2 * R[:, -1])
+            H[d, :d] = 0.25 * Q[:, -1] + 0.02 * r.rand(d)
+            H[d, d] = 0.9
+            return mt.Homogeneous(P(H)), V(H), info
+        if cls == "Homogeneous" and letter == "cornerzero":
+            L = R.dot(np.diag(0.7 + 0.8 * r.rand(d))) + 0.1 * r.rand(d, d)
+            H = homog(L, trans)
+            H[d, :d] = 0.15 + 0.1 * r.rand(d)  # denominators v.x > 0 on the probe region although the corner is 0
+            H[d, d] = 0.0
+            return mt.Homogeneous(P(H)), V(H), info
         if cls == "Homogeneous":
             L = R.dot(np.diag(0.7 + 0.8 * r.rand(d))) + 0.1 * r.rand(d, d)
             H = homog(L, trans)
@@ -559,7 +624,7 @@ class C04(Check):
         root, (cform, scont, tcont) = split_form(root)
         cls, d, tl, opt = root[1], int(root[2]), root[3], root[4]
         r = rs(self.seed, "c04", root)
-        n = d + 1 if opt == "minimal" else 8 if opt == "n8" else 5
+        n = d + 1 if opt == "minimal" else 8 if opt == "n8" else 1 if opt == "n1" else 2 if opt == "n2" else 5
         src = generic_points(n, d, self.seed, ("c04-al", root), min_area=MIN_AREA if (d == 2 and n <= 5) else None)
         R = rot2(20 + 50 * r.rand()) if d == 2 else rodrigues(r.randn(3), 20 + 50 * r.rand())
         trans = 0.5 + r.rand(d)
@@ -579,6 +644,8 @@ class C04(Check):
         elif tl == "generic":
             A = R.dot(np.diag(0.6 + 0.9 * r.rand(d))) + 0.2 * r.rand(d, d)
             tgt = (src - c).dot(A.T) + c + trans + 0.3 * r.randn(n, d)
+        elif tl == "same":
+            tgt = src.copy()
         elif tl == "mirrored":
             M = np.diag([-1.0] + [1.0] * (d - 1))
             tgt = s * (src - c).dot(M.T).dot(R.T) + c + trans + 0.1 * r.randn(n, d)
@@ -586,7 +653,7 @@ class C04(Check):
             raise HarnessError(root)
         if needs_grid(cform):
             src, tgt = np.round(QUANT["A"] * src), np.round(QUANT["A"] * tgt)
-            if _cdist(src, src)[np.triu_indices(n, 1)].min() < 2 or _cdist(tgt, tgt)[np.triu_indices(n, 1)].min() < 2:
+            if n > 1 and _cdist(src, src)[np.triu_indices(n, 1)].min() < 2 or _cdist(tgt, tgt)[np.triu_indices(n, 1)].min() < 2:
                 raise HarnessError("integer grid letter %r lost general position" % (root,))
         fs, ft = side_forms(cform)
         ps, pt = present(src, fs), present(tgt, ft)
@@ -607,6 +674,8 @@ class C04(Check):
         if layout == "fan5":
             return pwa_layout(self.seed, ("c04-pwa", var))
         r = rs(self.seed, "c04-pwa", layout, var)
+        if layout == "tri3":
+            return np.array([[0.8, 0.7], [1.0, 5.0], [5.2, 1.6]]) + (r.rand(3, 2) - 0.5) * 0.4, np.array([[0, 1, 2]])
         if layout == "quad":
             # roughly square source; the explicit diagonal 0-2 is kept whatever the target looks like
             src = np.array([[1.0, 1.0], [1.2, 4.6], [4.8, 5.0], [5.0, 1.3]]) + (r.rand(4, 2) - 0.5) * 0.3
@@ -701,6 +770,8 @@ class C04(Check):
                 tgt = (src - c).dot(A.T) + c + scale * np.array([0.6, -0.3])
             elif tl == "deform":
                 tgt = src + 1.2 * scale * (r.rand(n, 2) - 0.5)
+            elif tl == "identity":
+                tgt = src.copy()
             else:
                 raise HarnessError(root)
             if grid:
@@ -799,7 +870,7 @@ class C04(Check):
             # 'warm': the inverse has been taken once before the target moves (a memoised inverse would go stale)
             out.append(("retarget", st["n_ret"], "cold"))
             out.append(("retarget", st["n_ret"], "warm"))
-        if st["fam"] in ("H", "A") and st["n_comp"] < self.max_composes():
+        if st["fam"] in ("H", "A") and st["d"] in (2, 3) and st["n_comp"] < self.max_composes():
             for side in ("before", "after"):
                 for name in COMPOSE_OPERANDS:
                     out.append(("compose", side, name))
@@ -811,7 +882,7 @@ class C04(Check):
         fam = st["fam"]
         if fam in ("H", "A", "TC"):
             d = st["d"]
-            X = generic_points(6, d, self.seed, ("c04-probe", which, d))
+            X = self._safe_probes(st, which)
             if fam == "A":
                 X = np.vstack([X, st["src"]])
             if fam == "TC":
@@ -822,6 +893,36 @@ class C04(Check):
             X, Y = pwa_pairs(st["src"], st["tgt"], st["trilist"])
             return (X, Y) if which == "fwd" else (Y, X)
         raise HarnessError(fam)
+
+    def _generic(self, n, d, salt):
+        if d == 1:  # six points at pairwise distance >= 0.8 do not fit a random draw on [0.5, 5.5]
+            return (0.6 + 0.9 * np.arange(n) + 0.1 * rs(self.seed, salt, n, d).rand(n))[:, None]
+        return generic_points(n, d, self.seed, salt)
+
+    @staticmethod
+    def _away_from_horizon(H, X, margin=0.2):
+        """points whose homogeneous denominator v.x + w is not the result of a cancellation (trivially all for affine H)"""
+        d = H.shape[0] - 1
+        den = X.dot(H[d, :d]) + H[d, d]
+        ref = np.abs(X).dot(np.abs(H[d, :d])) + abs(H[d, d])
+        with np.errstate(invalid="ignore"):
+            return np.isfinite(den) & (np.abs(den) >= margin * ref) & (ref > 0)
+
+    def _safe_probes(self, st, which):
+        """up to 6 generic points that stay away from the horizon of the current map (their images are then away from
+        the horizon of the inverse): for affine maps simply the 6 generic points"""
+        d = st["d"]
+        G = self._generic(6, d, ("c04-probe", which, d))
+        H = st["H"]
+        if self._away_from_horizon(H, G).all():
+            return G
+        with np.errstate(all="ignore"):
+            back = h_apply(st["Hinv"], G)  # points of the range of the inverse
+        pool = np.vstack([G, back[np.all(np.isfinite(back), axis=1) & (np.abs(back).max(axis=1) < 50)], 0.5 + 5.0 * rs(self.seed, "c04-probe-pool", which, d).rand(60, d)])
+        X = pool[self._away_from_horizon(H, pool)][:6]
+        if X.shape[0] < 3:
+            raise HarnessError("no probe points away from the horizon for %r" % (st["root"],))
+        return X
 
     def _map_tol(self, st, *arrays):
         scale = max([1.0] + [float(np.abs(a).max()) for a in arrays if np.size(a)])
@@ -866,6 +967,19 @@ class C04(Check):
         if fam in ("H", "A", "TC"):
             H = st["H"]
             d = st["d"]
+            big = np.abs(H).max()
+            if abs(H[d, d]) <= 1e-14 * big:
+                self.note("boundary:own-corner-zero")
+            if abs(st["Hinv"][d, d]) <= 1e-14 * np.abs(st["Hinv"]).max():
+                self.note("boundary:inverse-corner-zero(linear-block-singular)")
+            if np.array_equal(H, np.eye(d + 1)):
+                self.note("boundary:identity:%s" % st["cls"])
+            if d not in (2, 3):
+                self.note("boundary:homogeneous-%dd" % d)
+            if fam == "A" and st["src"].shape[0] <= 2:
+                self.note("boundary:alignment-%d-point(s)" % st["src"].shape[0])
+            if fam == "A" and np.array_equal(st["src"], st["tgt"]):
+                self.note("boundary:alignment-target-equals-source")
             if np.abs(H[d, :d]).max() > 1e-6:
                 self.note("structure:projective-row")
             if np.linalg.det(H[:d, :d]) < 0:
@@ -881,11 +995,17 @@ class C04(Check):
                     self.note("structure:pwa-trilist-not-delaunay-of-" + nm)
             if signed_areas(st["src"], st["trilist"])[0] * signed_areas(st["tgt"], st["trilist"])[0] < 0:
                 self.note("structure:pwa-orientation-reversing")
+            if len(st["trilist"]) == 1:
+                self.note("boundary:pwa-single-triangle")
         if fam == "TPS":
             for nm, pts in (("source", st["src"]), ("target", st["tgt"])):
                 s = np.linalg.svd(tps_system(pts, st["kern"]), compute_uv=False)
                 if s.min() < 1e-4:
                     self.note("structure:tps-default-floor-would-truncate-" + nm)
+            if np.array_equal(st["src"], st["tgt"]):
+                self.note("boundary:tps-target-equals-source")
+            if st["src"].shape[0] == 3:
+                self.note("boundary:tps-three-landmarks")
 
     # ------------------------------------------------------------------ honesty predicates (as in C03)
     def _honesty(self, p, st_after):
@@ -1298,7 +1418,7 @@ class C04(Check):
             self.note("pinv_vec:" + ("ok" if same else "ok-vector-form-is-lossy"))
         return fails
 
-    PROBE_FORMS = ("i64", "i32", "f32", "ro", "nc", "fortran")
+    PROBE_FORMS = ("i64", "i32", "f32", "ro", "nc", "fortran", "one", "empty")
 
     def _op_apply_forms(self, st):
         """the points handed to apply() in other legal forms (integer dtypes, float32, read-only, strided, Fortran
@@ -1309,12 +1429,16 @@ class C04(Check):
         fails = []
         for form in self.PROBE_FORMS:
             integer = form in INT_FORMS
+            size = {"one": 1, "empty": 0}.get(form)  # boundary sizes of the point set: a single point, no point
+            if size is not None:
+                form = "f64"
             if fam in ("H", "A", "TC"):
                 X, _ = self._probes(st, "fwd")
-                if st["n_inv"] % 2:
-                    X = h_apply(st["Hinv"], X)  # points of the range of the original: inside the domain of its inverse
                 if integer:
                     X = np.unique(np.round(X), axis=0)
+                    X = X[self._away_from_horizon(st["H"], X)]
+                if size is not None:
+                    X = X[:size]
                 Xp = present(X, form)
                 Xv = values_of(Xp)
                 Yv = h_apply(st["H"], Xv)
@@ -1329,6 +1453,8 @@ class C04(Check):
                     self.note("apply_forms:%s-too-few-interior-points" % form)
                     continue
                 Xv, Yv = Xv[inside], Yv[inside]
+                if size is not None:
+                    Xv, Yv = Xv[:size], Yv[:size]
                 Xp = present(Xv, form)
                 tol = self._map_tol(st, Xv, Yv)
             else:
@@ -1337,10 +1463,13 @@ class C04(Check):
                     if st["scale"] < 1:
                         continue  # landmark coordinates of order 1e-2: no integer points in the region
                     X = np.unique(np.round(X), axis=0)
+                if size is not None:
+                    X = X[:size]
                 Xp = present(X, form)
                 Xv = values_of(Xp)
                 Yv = tps_fit(st["src"], st["tgt"], st["kern"])(Xv)
                 tol = RTOL_TPS * st["scale"]
+            form = {1: "one", 0: "empty"}.get(size, form)
             y = np.asarray(t.apply(Xp))
             if y.dtype == np.float32:
                 tol = max(tol, 1e-3 * max(1.0, float(np.abs(Yv).max())))
@@ -1349,7 +1478,7 @@ class C04(Check):
                 fails.append(Failure(cls, "map-depends-on-argument-form", "apply(points as %s) differs from the map of the same values by %.3g (root %r)" % (form, e, st["root"])))
                 continue
             if fam == "TPS":
-                back = np.asarray(p.apply(present(st["tgt"], form if not integer else "f64")))
+                back = np.asarray(p.apply(present(st["tgt"], form if not (integer or size is not None) else "f64")))
                 ok, e = _close("form-interp", back, st["src"], RTOL_TPS * st["scale"] * (1e5 if back.dtype == np.float32 or form == "f32" else 1.0))
                 want = "target landmarks (as %s) are not sent back onto the source landmarks" % form
             else:
@@ -1396,6 +1525,16 @@ class C04(Check):
             "pinv-after-retarget:PWA",
             "pinv-after-retarget:TPS",
             "structure:pwa-target-mesh-carries-another-trilist",
+            "boundary:own-corner-zero",
+            "boundary:inverse-corner-zero(linear-block-singular)",
+            "boundary:homogeneous-1d",
+            "boundary:homogeneous-4d",
+            "boundary:alignment-1-point(s)",
+            "boundary:alignment-2-point(s)",
+            "boundary:alignment-target-equals-source",
+            "boundary:pwa-single-triangle",
+            "boundary:tps-target-equals-source",
+            "boundary:tps-three-landmarks",
             "kept-inverse:intact",
             "kept-original:intact",
             "honesty:asked",
@@ -1428,6 +1567,9 @@ class C04(Check):
         for f in self.PROBE_FORMS:
             if not notes.get("apply_forms:%s" % f):
                 out.append("probe points in form %s never applied" % f)
+        for c in IDENTITY_CLASSES:
+            if not notes.get("boundary:identity:%s" % c):
+                out.append("identity letter of %s never exercised" % c)
         out = sorted(set(out))
 
         for c in ["Homogeneous", "Affine", "Similarity", "Rotation", "UniformScale", "NonUniformScale", "Translation"] + ALIGN_CLASSES + ["PythonPWA", "CachedPWA", "ThinPlateSplines"]:
@@ -1465,6 +1607,8 @@ class C04(Check):
             "argument forms: every class is also built from the same payload as float32 / int64 / int32 / int16 / uint8 arrays (integer letters: coordinates on the grid round(%g x generic) for alignments and PWA, round(%g x generic) for TPS; small non-negative integer matrices / vectors for the plain classes), read-only, strided and Fortran-order views, python lists / tuples (vectors and landmark sets; matrix constructors reject sequences), python / numpy scalars (UniformScale); landmark containers PointCloud / TriMesh (same, other explicit, default Delaunay trilist) / PointUndirectedGraph for source and target; the reference model only sees the float64 values of what was handed over; probe points are applied as int64 / int32 / float32 / read-only / strided / Fortran arrays too" % (QUANT["A"], QUANT["TPS"]),
             "float32 payloads (menpo then computes in float32) are compared at 1e-3 relative; [interp] for float32 PWA letters landmarks are approached from inside their triangles (weights 1-1e-3) because containment of the vertex itself is decided by float32 rounding; bool coordinates are not meaningful and not enumerated",
             "forms excluded because the unchanged tree mishandles them for reasons outside C04 (reported): " + "; ".join("%s with %s (%s)" % (k[0], k[1], v) for k, v in sorted(FORM_EXCLUDED.items())),
+            "boundary letters: Homogeneous with a zero bottom-right entry and / or a singular linear block (well conditioned as a whole: the inverse then has a zero corner), identities built by init_identity, uniform scales 1e-5 / 1e5, equal non-uniform scales, rotations by 180 / 360 degrees, Homogeneous in 1-D and 4-D, the smallest landmark sets each alignment accepts (Rotation / Translation 1 point, Similarity / UniformScale 2 points, Affine n_dims+1), target == source, a one-triangle PWA, TPS with 3 landmarks and with target == source, apply() on a single point and on an empty point set; probe points are chosen away from the horizon of projective maps (|v.x+w| >= 0.2 (|v|.|x|+|w|))",
+            "not letters (the unchanged tree refuses or the input is singular): AlignmentAffine / AlignmentSimilarity / AlignmentUniformScale with 1 point (LinAlgError), AlignmentAffine with fewer than n_dims+1 points (under-determined: singular normal equations are solved without an error), UniformScale(0), tcoords for an image side of 1 pixel",
             "singular / ill-conditioned parameter values, folding PWA targets, collinear or coincident landmarks are outside the quantifier and are not enumerated",
         ]
 
